@@ -298,6 +298,18 @@ theorem slice_with_zero_step_is_refused (n : Nat) (a b : Option Int) :
 /-- `[10, 20, 30, 40, 50][::2]` = `[10, 30, 50]` (⌈5 / 2⌉ = 3 elements) -/
 example : pick [10, 20, 30, 40, 50] ((sliceIndices 5 none none (some 2)).toOption.getD []) = [10, 30, 50] := by decide +kernel
 
+/-- **every slice, whatever its bounds and step, selects positions inside the list and returns exactly one element per selected
+    position**: the model's `pick` (which would skip a position outside the list) never skips, so nothing is lost or invented
+    between `slice.indices` and the list the read returns -/
+theorem slice_positions_inside_none_dropped (xs : List Val) (a b c : Option Int) (idx : List Nat)
+    (h : sliceIndices xs.length a b c = .ok idx) :
+    (∀ i, i ∈ idx → i < xs.length) ∧ (pick xs idx).length = idx.length ∧ idx.length ≤ xs.length :=
+  ⟨sliceIndices_mem_lt _ _ _ _ _ h, pick_slice_length_eq xs a b c idx h, sliceIndices_length_le _ _ _ _ _ h⟩
+
+/-- non-vacuity: `[::-2]`, `[-100:100]`, `[5:1]` on three elements all succeed -/
+example : ((sliceIndices 3 none none (some (-2))).toOption.isSome ∧ (sliceIndices 3 (some (-100)) (some 100) none).toOption.isSome ∧
+    (sliceIndices 3 (some 5) (some 1) none).toOption.isSome) := by decide +kernel
+
 /-- **reading `c[a:b]` from a list object** returns a NEW list object holding exactly that segment, and leaves every object
     that existed before as it was (`HeapExt`): the slice is a copy of the spine, never a view -/
 theorem slice_read_returns_new_segment (s : BState) (a : Nat) (xs : List Val) (lo hi : Option Int)
